@@ -156,20 +156,43 @@ func runTestBinary(m *modSpec, o *obsResult, seed int64, samples int, withRand b
 		res.BuildErr = strings.ReplaceAll(string(out), root+"/", "")
 		return res
 	}
-	ctx, cancel := context.WithTimeout(context.Background(), 120*time.Second)
-	defer cancel()
-	run := exec.CommandContext(ctx, bin, fmt.Sprint(seed), fmt.Sprint(samples))
-	var stdout, stderr bytes.Buffer
-	run.Stdout, run.Stderr = &stdout, &stderr
-	if err := run.Run(); err != nil {
-		res.RunErr = err.Error() + ": " + tail(stderr.String(), 1500)
+	runOnce := func(mode string, limit time.Duration) (string, string) {
+		ctx, cancel := context.WithTimeout(context.Background(), limit)
+		defer cancel()
+		run := exec.CommandContext(ctx, bin, fmt.Sprint(seed), fmt.Sprint(samples), mode)
+		var stdout, stderr bytes.Buffer
+		run.Stdout, run.Stderr = &stdout, &stderr
+		errMsg := ""
+		if err := run.Run(); err != nil {
+			errMsg = err.Error() + ": " + tail(stderr.String(), 600)
+			if strings.Contains(stderr.String(), "stack overflow") || strings.Contains(stderr.String(), "goroutine stack exceeds") {
+				errMsg = "fatal error: stack overflow"
+			}
+		}
+		return stdout.String(), errMsg
 	}
-	sc := bufio.NewScanner(&stdout)
-	sc.Buffer(make([]byte, 1<<20), 1<<26)
-	for sc.Scan() {
-		var r binRecord
-		if json.Unmarshal(sc.Bytes(), &r) == nil {
-			res.Records = append(res.Records, r)
+	parse := func(out string) {
+		sc := bufio.NewScanner(strings.NewReader(out))
+		sc.Buffer(make([]byte, 1<<20), 1<<26)
+		for sc.Scan() {
+			var r binRecord
+			if json.Unmarshal(sc.Bytes(), &r) == nil {
+				res.Records = append(res.Records, r)
+			}
+		}
+	}
+	out, errMsg := runOnce("roundtrip", 120*time.Second)
+	parse(out)
+	res.RunErr = errMsg
+	if withRand {
+		// one process per type: an unbounded recursion kills the process with a fatal stack overflow
+		list, _ := runOnce("randlist", 20*time.Second)
+		for _, name := range strings.Fields(list) {
+			out, errMsg := runOnce("rand:"+name, 30*time.Second)
+			parse(out)
+			if errMsg != "" {
+				res.Records = append(res.Records, binRecord{Kind: "rand", Type: name, OK: false, Msg: "does not terminate (" + errMsg + ")"})
+			}
 		}
 	}
 	os.Remove(bin)
